@@ -703,9 +703,11 @@ func s5(w *World, r *Report) {
 				continue
 			}
 			st := map[string]bool{}
-			for _, fs := range w.fieldStores(mf) {
-				if fs.Owner != nil && fs.Owner.Obj() == n.Obj() {
-					st[fs.Field.Name()] = true
+			for _, g := range w.withModuleCallees(mf, 3) {
+				for _, fs := range w.fieldStores(g) {
+					if fs.Owner != nil && fs.Owner.Obj() == n.Obj() {
+						st[fs.Field.Name()] = true
+					}
 				}
 			}
 			var missing []string
@@ -719,6 +721,28 @@ func s5(w *World, r *Report) {
 		efd, einfo := w.declOf(pkgCT, pt, "Encode")
 		if efd != nil {
 			reads := fieldsSelectedIn(einfo, efd.Body, n)
+			// the wire struct may be built by a helper of the type
+			if ef := w.Method(pkgCT, pt, "Encode"); ef != nil {
+				for _, g := range w.withModuleCallees(ef, 3) {
+					if g == ef {
+						continue
+					}
+					for _, b := range g.Blocks {
+						for _, in := range b.Instrs {
+							switch x := in.(type) {
+							case *ssa.FieldAddr:
+								if o, f := fieldOf(x.X.Type(), x.Field); o != nil && f != nil && o.Obj() == n.Obj() {
+									reads[f.Name()] = true
+								}
+							case *ssa.Field:
+								if o, f := fieldOf(x.X.Type(), x.Field); o != nil && f != nil && o.Obj() == n.Obj() {
+									reads[f.Name()] = true
+								}
+							}
+						}
+					}
+				}
+			}
 			var missing []string
 			for _, f := range structFields(n) {
 				if !reads[f.Name()] {
@@ -728,6 +752,27 @@ func s5(w *World, r *Report) {
 			r.Check(len(missing) == 0, "S-5", "payload:"+pt+":Encode", "wire encoder reads every field", "wire encoder drops field(s): "+strings.Join(missing, ","), w.Pos(efd.Pos()))
 		}
 	}
+}
+
+// withModuleCallees: fn and the module functions it calls statically, to the given depth.
+func (w *World) withModuleCallees(fn *ssa.Function, depth int) []*ssa.Function {
+	seen := map[*ssa.Function]bool{fn: true}
+	out := []*ssa.Function{fn}
+	frontier := []*ssa.Function{fn}
+	for d := 0; d < depth; d++ {
+		var next []*ssa.Function
+		for _, f := range frontier {
+			for _, c := range CallsIn(f) {
+				if cal := c.Common().StaticCallee(); cal != nil && !seen[cal] && cal.Blocks != nil && w.InModule(cal) {
+					seen[cal] = true
+					out = append(out, cal)
+					next = append(next, cal)
+				}
+			}
+		}
+		frontier = next
+	}
+	return out
 }
 
 // decodeRLPTable: tx type -> payload type allocated by Trx.DecodeRLP.
